@@ -9,6 +9,7 @@ import (
 	"path/filepath"
 	"strings"
 	"sync"
+	"sync/atomic"
 	"time"
 )
 
@@ -91,6 +92,10 @@ func (g *Gen) buildQuery(o *Obl, extraAssume string, wantModel bool, dropQuant b
 // through function values (which closure is it?) before the obligations are generated. A "no" (or a timeout) only means
 // that the general, case-splitting encoding is used instead.
 func (g *Gen) provable(reach, cond string) bool {
+	if g.dynUnknown >= 3 {
+		// the proof context no longer determines the callees (typically after a call with unknown effects): stop asking
+		return false
+	}
 	g.dynQueries++
 	o := &Obl{seq: g.seq + 1, reach: reach, cond: cond, outLen: len(g.out), entrySeq: g.entrySeq, cutSeq: g.cutSeq}
 	q := g.buildQuery(o, "", false, false)
@@ -101,7 +106,12 @@ func (g *Gen) provable(reach, cond string) bool {
 	defer os.Remove(f.Name())
 	f.WriteString(q)
 	f.Close()
-	ans, _, dur := runSolver(solvers[0], f.Name(), 5*time.Second)
+	ans, _, dur := runSolver(solvers[0], f.Name(), 3*time.Second)
+	if ans != "unsat" {
+		g.dynUnknown++
+	} else {
+		g.dynUnknown = 0
+	}
 	if os.Getenv("GOVC_DYNDEBUG") != "" {
 		fmt.Fprintf(os.Stderr, "dyn query %d: %s %.2fs (%d bytes) %s\n", g.dynQueries, ans, dur, len(q), cond[:min(len(cond), 60)])
 	}
@@ -314,13 +324,23 @@ func (eng *Engine) dischargeAll(g *Gen, dir string, timeout time.Duration, worke
 	results := make([]*OblResult, len(g.obls))
 	var wg sync.WaitGroup
 	sem := make(chan struct{}, workers)
+	var nfail int32
 	for i := range g.obls {
 		wg.Add(1)
 		go func(i int) {
 			defer wg.Done()
 			sem <- struct{}{}
 			defer func() { <-sem }()
-			results[i] = eng.discharge(g, &g.obls[i], dir, i, timeout, false)
+			to := timeout
+			if atomic.LoadInt32(&nfail) >= 12 && to > 2*time.Second {
+				// the function is already reported as failing: the remaining obligations get a short attempt only (a
+				// broken proof context makes hundreds of them undecidable, each costing the full portfolio otherwise)
+				to = 2 * time.Second
+			}
+			results[i] = eng.discharge(g, &g.obls[i], dir, i, to, false)
+			if r := results[i]; r != nil && !g.obls[i].probe && r.Status != "proved" {
+				atomic.AddInt32(&nfail, 1)
+			}
 		}(i)
 	}
 	wg.Wait()
